@@ -43,7 +43,12 @@ static int check_tuple(const dtype_t *t, uint32_t spd, uint32_t sdf, uint32_t ep
     memset(&d, 0, sizeof(d));
     d.signal_id = 1; d.source_id = 0; d.signal_type = JLS_SIGNAL_TYPE_FSR; d.data_type = t->code; d.sample_rate = 1000;
     d.samples_per_data = spd; d.sample_decimate_factor = sdf; d.entries_per_summary = eps; d.summary_decimate_factor = sumdf;
-    v_ctx("%s spd=%u sdf=%u eps=%u sumdf=%u", t->name, spd, sdf, eps, sumdf);
+    /* the two time-series decimation factors take part in the same normalisation: 0 = default, minimum 2 */
+    static const uint32_t tsf[] = {0, 1, 2, 3, 100, 7, 0xffffffffu, 0};
+    uint64_t hts = vmix(((uint64_t) spd << 32) ^ sdf, ((uint64_t) eps << 32) ^ sumdf ^ (uint64_t) t->code);
+    uint32_t adf = tsf[hts % 8], udf = tsf[(hts >> 8) % 8];
+    d.annotation_decimate_factor = adf; d.utc_decimate_factor = udf;
+    v_ctx("%s spd=%u sdf=%u eps=%u sumdf=%u adf=%u udf=%u", t->name, spd, sdf, eps, sumdf, adf, udf);
     char key[160], wj[256];
     double t0 = cpu_now();
     v_api("jls_core_signal_def_validate");
@@ -75,6 +80,21 @@ static int check_tuple(const dtype_t *t, uint32_t spd, uint32_t sdf, uint32_t ep
         snprintf(key, sizeof(key), "relation|%s|spd=%s|sdf=%s|eps=%s|sumdf=%s", what, mag(spd), mag(sdf), mag(eps), mag(sumdf));
         v_violation("C16", key, wj, "accepted definition stored as (%u,%u,%u,%u): %s", o_spd, o_sdf, o_eps, o_sum, what);
         return 1;
+    }
+    {
+        struct jls_signal_def_s z0; memset(&z0, 0, sizeof(z0));
+        z0.signal_id = 1; z0.signal_type = JLS_SIGNAL_TYPE_FSR; z0.data_type = t->code; z0.sample_rate = 1000;
+        jls_core_signal_def_align(&z0);
+        uint32_t oa = d.annotation_decimate_factor, ou = d.utc_decimate_factor;
+        const char *tw = NULL;
+        if (oa < 2 || ou < 2) tw = "ts-factor-below-minimum";
+        else if ((adf == 0 && oa != z0.annotation_decimate_factor) || (udf == 0 && ou != z0.utc_decimate_factor)) tw = "ts-factor-zero-not-default";
+        else if ((adf >= 2 && oa != adf) || (udf >= 2 && ou != udf)) tw = "ts-factor-changed";
+        if (tw) {
+            snprintf(key, sizeof(key), "relation|%s|sizes-%s", tw, (spd && sdf && eps && sumdf) ? "all-given" : "some-zero");
+            v_violation("C16", key, wj, "annotation/utc decimate factors requested (%u,%u) stored as (%u,%u): %s", adf, udf, oa, ou, tw);
+            return 1;
+        }
     }
     /* idempotence */
     struct jls_signal_def_s d2 = d;
